@@ -637,6 +637,89 @@ static void prefill_part(void)
 	}
 }
 
+/* (c3) dictionaries: the compressed bytes must not depend on what the context, the level buffer, the output buffer OR the caller's
+ * struct isal_dict held before (isal_deflate_process_dict fills it; nothing says it has to be cleared first). Both routes
+ * (set_dict / process_dict + reset_dict), dictionary lengths 64 / 4000 / 32768, data that continues the dictionary's pattern (so
+ * that hash buckets the dictionary never set are looked up at once), levels 0-3, 3 kernel sets, 6 pre-fill patterns. */
+static void dict_prefill_part(void)
+{
+	static const int lens[] = { 300, 4096, 20000 }, dlens[] = { 64, 4000, 32768 };
+	static const int pats[] = { PAT_TEXT, PAT_XS, PAT_ZERO, PAT_P3, PAT_P258 };
+	static const int cpus[] = { CPU_BASE, CPU_AVX2, CPU_AVX512G2 };
+	static uint8_t *in, *out[6], *lb;
+	static struct isal_zstream *s;
+	static struct isal_dict *dobj;
+	if (!in) {
+		in = malloc(20000 + 32768);
+		for (int i = 0; i < 6; i++) out[i] = malloc(60000);
+		lb = malloc(ISAL_DEF_LVL3_DEFAULT);
+		s = malloc(sizeof *s);
+		dobj = malloc(sizeof *dobj);
+	}
+	char key[300], why[256];
+	uint64_t unit = 4000000;
+	for (int li = 0; li < 3; li++)
+		for (int pi = 0; pi < 5; pi++)
+			for (int level = 0; level <= 3; level++)
+				for (int di = 0; di < 3; di++)
+					for (int route = 0; route < 2; route++)
+						for (int ci = 0; ci < 3; ci++) {
+							if (!v_mine(unit++))
+								continue;
+							if (nfail > 20 || v_deadline_hit())
+								return;
+							int len = lens[li], dl = dlens[di];
+							fill_pattern(in, dl + len, pats[pi], len + pi + di);
+							cpu_set_level(cpus[ci]);
+							size_t olen[6]; int ret[6];
+							for (int pf = 0; pf < 6; pf++) {
+								if (pf < 5) {
+									prefill(s, sizeof *s, pf, NULL);
+									prefill(lb, ISAL_DEF_LVL3_DEFAULT, pf, NULL);
+									prefill(dobj, sizeof *dobj, pf, NULL);
+								} else { /* a repeating 16-bit value: a plausible stale hash-table entry everywhere */
+									for (size_t i = 0; i + 1 < sizeof *s; i += 2) { ((uint8_t *)s)[i] = 0xa0; ((uint8_t *)s)[i + 1] = 0xff; }
+									for (size_t i = 0; i + 1 < ISAL_DEF_LVL3_DEFAULT; i += 2) { lb[i] = 0xa0; lb[i + 1] = 0xff; }
+									for (size_t i = 0; i + 1 < sizeof *dobj; i += 2) { ((uint8_t *)dobj)[i] = 0xa0; ((uint8_t *)dobj)[i + 1] = 0xff; }
+								}
+								prefill(out[pf], 60000, pf % 5, NULL);
+								isal_deflate_init(s);
+								s->level = level; s->level_buf = level ? lb : NULL; s->level_buf_size = level ? lvl_default[level] : 0;
+								int r;
+								if (route == 0)
+									r = isal_deflate_set_dict(s, in, dl);
+								else {
+									r = isal_deflate_process_dict(s, dobj, in, dl);
+									if (r == 0)
+										r = isal_deflate_reset_dict(s, dobj);
+								}
+								s->next_in = in + dl; s->avail_in = len; s->end_of_stream = 1; s->next_out = out[pf]; s->avail_out = 60000;
+								if (r == 0)
+									r = isal_deflate(s);
+								ret[pf] = r; olen[pf] = s->total_out;
+								v_eval();
+							}
+							snprintf(key, sizeof key, "prefill deflate+dictionary level=%d route=%s dict=%d cpu=%s input=%s:%d", level, route ? "process_dict+reset_dict" : "set_dict", dl, cpu_level_name[cpus[ci]], pat_name[pats[pi]], len);
+							int bad = 0;
+							for (int pf = 1; pf < 6 && !bad; pf++)
+								if (ret[pf] != ret[0] || olen[pf] != olen[0] || memcmp(out[pf], out[0], olen[0])) {
+									v_violation(key, "result depends on prior memory contents (context / level buffer / isal_dict object): pre-fill pattern %d gives ret %d / %zu bytes, pattern 0 gives ret %d / %zu bytes%s", pf, ret[pf],
+										    olen[pf], ret[0], olen[0], olen[pf] == olen[0] && memcmp(out[pf], out[0], olen[0]) ? " (different bytes)" : "");
+									nfail++;
+									bad = 1;
+								}
+							if (!bad && ret[0] == 0) {
+								const uint8_t *h = dl > 32768 ? in + dl - 32768 : in;
+								if (!verify_deflate_output(out[0], olen[0], IGZIP_DEFLATE, in + dl, len, 0, 0, h, dl > 32768 ? 32768 : dl, why, sizeof why)) {
+									v_violation(key, "stream does not decode with the dictionary as history: %s", why);
+									nfail++;
+								}
+							}
+							v_count("dict_prefill_cases", 1);
+							v_nontrivial(v_hash(out[0], olen[0], unit));
+						}
+}
+
 /* ======================= (d) REUSE: reset == fresh ======================= */
 static uint8_t *RX[3];
 static int RXL[3] = { 600, 4096, 70 };
@@ -865,6 +948,8 @@ int main(int argc, char **argv)
 		inflate_prefill_part();
 	if (!v_part || !strcmp(v_part, "prefill"))
 		prefill_part();
+	if (!v_part || !strcmp(v_part, "prefill"))
+		dict_prefill_part();
 	if (!v_part || !strcmp(v_part, "reuse"))
 		reuse_part();
 	if (v_shard == 0) {
